@@ -54,7 +54,7 @@ def build(repo):
     u.assemble()
     NG = (BH, 'negotiate_block_size_if_necessary')
     u.rule('R9:format!', r'format!\((?:[^()]|\([^()]*\))*\)', 'fmt_stub()', (0, 9))
-    u.rule('R17:cmp-min', r'(?<![A-Za-z0-9_])min\(request_block\.size\(\), max_block_size\)', 'min_usize(request_block.size(), max_block_size)', 1)
+    u.rule('R17:cmp-min', r'(?<![A-Za-z0-9_.])min\(((?:[^(),]|\([^()]*\))+),\s*((?:[^(),]|\([^()]*\))+)\)', r'min_usize(\1, \2)', (1, 3))
     u.rule('R31:constructor-as-fn', r'\.map\(Some\)', '.map(|b: BlockValue| -> (o: Option<BlockValue>) ensures o == Some(b) { Some(b) })', 1)
     u.contract(NG, '''        requires request_block is Some ==> request_block->0.size_exponent <= 7, total_payload_size <= message_size, message_size <= usize::MAX / 4
         ensures neg_post(deref_opt(request_block), message_size as int, total_payload_size as int, max_total_message_size as int, r)''', props=PROPS)
